@@ -474,6 +474,15 @@ func (Area) Gen(r *rand.Rand, tier string, emit func(string)) {
 				emitHist(emit, false, cs, []gplan{sp(0, 3), p, sp(2, 3), sp(0, -1)})
 			}
 		}
+		// Close issued before / during a poll against a target that has stopped answering (the poll lasts
+		// two request timeouts: the ListServices answer and the drain in client.close): Close must still
+		// wait for the poller, the error report must come before it returns
+		for _, pt := range []byte{'A', 'B'} {
+			p := fa("T0@lr")
+			p.n = [5]int{}
+			p.closeAt = pt
+			emitHist(emit, false, cs, []gplan{sp(0, 3), p, sp(2, -1)})
+		}
 		// OnlyServices: files are not fetched, only the listing counts
 		emitHist(emit, true, cs, []gplan{sp(0, 3), sp(1, 3), sp(2, 3), sp(3, 3), sp(0, -1)})
 	}
